@@ -116,3 +116,33 @@ pub fn exec_geom(_ctx: &mut Ctx, t: &mut Toks) -> String {
         x => format!("UNKNOWN-OP {x}"),
     }
 }
+
+
+/// `own n (xc yc angle|- aspect height)*` — `exclusively_owned_areas` + `…_normalized_shares` on the set;
+/// per box: `cos sin` (f64), the 4 vertices of `Polygon::from(&box)`, `area()` (f32), the owned area (f64), the share (f32)
+pub fn exec_own(_ctx: &mut Ctx, t: &mut Toks) -> String {
+    use geo::{Area, Polygon};
+    use similari::utils::clipping::bbox_own_areas::{exclusively_owned_areas, exclusively_owned_areas_normalized_shares};
+    let n = t.usize();
+    let boxes: Vec<Universal2DBox> = (0..n).map(|_| ubox(t)).collect();
+    let refs: Vec<&Universal2DBox> = boxes.iter().collect();
+    let polys = exclusively_owned_areas(&refs);
+    let shares = exclusively_owned_areas_normalized_shares(&refs, &polys);
+    let mut out = format!("OWN {} {}", polys.len(), shares.len());
+    for (i, b) in boxes.iter().enumerate() {
+        let (c, s) = cs(b);
+        out.push_str(&format!(" {} {}", f64_tok(c), f64_tok(s)));
+        let p = Polygon::<f64>::from(b);
+        let pts: Vec<_> = p.exterior().coords_iter().collect();
+        for q in pts.iter().take(4) {
+            out.push_str(&format!(" {} {}", f64_tok(q.x), f64_tok(q.y)));
+        }
+        out.push_str(&format!(
+            " {} {} {}",
+            f32_tok(b.area()),
+            polys.get(i).map(|p| f64_tok(p.unsigned_area())).unwrap_or("-".into()),
+            shares.get(i).map(|x| f32_tok(*x)).unwrap_or("-".into())
+        ));
+    }
+    out
+}
